@@ -22,7 +22,7 @@ struct MHeap {
   mi_heap_t* h = nullptr; int prog = -1; int kind = HK_BACKING; int tag = 0; bool destroyable = false;
   int arena_slot = -1; bool alive = true; int hslot = -1;
 };
-struct MArena { mi_arena_id_t id = 0; uint8_t* start = nullptr; size_t size = 0; bool exclusive = false; uint8_t* region = nullptr; size_t region_size = 0; bool donated = false; };
+struct MArena { mi_arena_id_t id = 0; uint8_t* start = nullptr; size_t size = 0; bool exclusive = false; uint8_t* region = nullptr; size_t region_size = 0; bool donated = false; bool pinned = false; };
 
 struct ThreadCtx {
   int prog = -1; int vt = -1;
